@@ -8,6 +8,9 @@
 (*  kind     "name" | "num"                                                *)
 (*  api      "Write" | "WriteMap" | "InMemory" (Write(w, t.All()) for an   *)
 (*           in-memory tree value t whose map is val at that moment)       *)
+(*           | "Foreign" (a conforming tree for val rendered by the        *)
+(*           harness as other producers write it; only the readers are     *)
+(*           go-pdf's)                                                     *)
 (*  ord      the concrete keys occurring anywhere in the record (written,  *)
 (*           found in the tree, probed), ascending, as byte sequences      *)
 (*           (names: their bytes; integers: 8 bytes, big-endian, offset    *)
@@ -126,7 +129,7 @@ Parts(c) ==
       tree == Build(c.nodes, 1)
       U == Len(c.ord)
   IN IF ~OrdOK(c) THEN <<"HarnessOrder">>     \* the harness's ranks are not the reference order
-     ELSE IF c.accepted # (c.api \in {"WriteMap", "InMemory"} \/ RefAccepts(c.input)) THEN <<"RejectsExactly">>
+     ELSE IF c.accepted # (c.api \in {"WriteMap", "InMemory", "Foreign"} \/ RefAccepts(c.input)) THEN <<"RejectsExactly">>
      ELSE IF ~c.accepted THEN <<>>
      ELSE IF n = 0 THEN
         ValueParts(c, mm)
